@@ -33,10 +33,10 @@ type topo struct {
 	Pad int
 }
 
-var families = []string{"cname", "dname", "nscycle", "deep", "lame", "hugens", "manysig"}
+var families = []string{"cname", "dname", "nscycle", "deep", "lame", "hugens", "manysig", "updown"}
 
 // variants per family (see buildTopo)
-var familyVariants = map[string]int{"cname": 2, "dname": 2, "nscycle": 2, "deep": 2, "lame": 5, "hugens": 3, "manysig": 3}
+var familyVariants = map[string]int{"cname": 2, "dname": 2, "nscycle": 2, "deep": 2, "lame": 5, "hugens": 3, "manysig": 3, "updown": 2}
 
 func buildTopo(family string, n, variant int, signed bool) *topo {
 	w := l3.NewWorld(signed)
@@ -248,6 +248,65 @@ func buildTopo(family string, n, variant int, signed bool) *topo {
 		t.Answerable = true
 		t.Honest = false
 		t.Pad = n
+	case "updown":
+		// An authority that plays with qname minimisation: minimised probes below up.test. are answered
+		// "no zone cut here" (NODATA + SOA) until the probe is `deepAt` labels long, then the resolver is
+		// referred back UP to a.up.test. (shallower than the minimisation level it has reached: the
+		// parent-detection restart without minimisation); the full question is then fed a chain of n
+		// one-label-deeper referrals, every zone on its own address, before it is answered.
+		// variant 0: NODATA up to 4 labels; variant 1: up to 5 labels (needs minimisation level > 5).
+		if n < 2 {
+			n = 2
+		}
+		if n > 10 {
+			n = 10
+		}
+		z := w.AddZone("up.test.", l3.ZoneOpts{})
+		letters := []string{"a", "b", "c", "d", "e", "f", "g", "h", "i", "j", "k", "l"}
+		total := 2 + n + 1 // up.test. + n zones + the leaf label
+		lbl := make([]string, 0, total)
+		for i := n; i >= 0; i-- {
+			lbl = append(lbl, letters[i])
+		}
+		lbl = append(lbl, "up", "test")
+		qname := dns.Fqdn(strings.Join(lbl, "."))
+		zoneOf := func(k int) string { return dns.Fqdn(strings.Join(lbl[len(lbl)-k:], ".")) }
+		srvs := map[int]*l3.Server{2: z.Servers[0]}
+		for k := 3; k < total; k++ {
+			srvs[k] = w.NewServer(zoneOf(k))
+		}
+		deepAt := 4 + variant
+		soa := &dns.SOA{Hdr: dns.RR_Header{Name: "up.test.", Rrtype: dns.TypeSOA, Class: dns.ClassINET, Ttl: 60}, Ns: "ns1.up.test.",
+			Mbox: "hostmaster.up.test.", Serial: 1, Refresh: 3600, Retry: 600, Expire: 86400, Minttl: 60}
+		for k, srv := range srvs {
+			k, srv := k, srv
+			srv.SetBehaviour(l3.Behaviour{Tamper: func(q dns.Question, honest *dns.Msg, tcp bool) *dns.Msg {
+				name := strings.ToLower(q.Name)
+				if !dns.IsSubDomain("up.test.", name) || name == "up.test." {
+					return honest
+				}
+				if name != qname {
+					// a minimised probe
+					if dns.CountLabel(name) <= deepAt {
+						m := referral(honest, "up.test.", nil, srv)
+						m.Authoritative = true
+						m.Ns = []dns.RR{soa}
+						return m
+					}
+					return referral(honest, zoneOf(3), []string{"ns." + zoneOf(3)}, srvs[3])
+				}
+				if k+1 < total {
+					return referral(honest, zoneOf(k+1), []string{"ns." + zoneOf(k+1)}, srvs[k+1])
+				}
+				m := referral(honest, "up.test.", nil, srv)
+				m.Authoritative = true
+				m.Answer = []dns.RR{&dns.A{Hdr: dns.RR_Header{Name: q.Name, Rrtype: dns.TypeA, Class: dns.ClassINET, Ttl: 60}, A: []byte{192, 0, 2, 84}}}
+				return m
+			}})
+		}
+		t.QName = qname
+		t.Answerable = true
+		t.Honest = false
 	default:
 		panic("unknown family " + family)
 	}
